@@ -208,6 +208,9 @@ def run_sizes(case, acc, order):
                 it = list(r.iter_chunks())
                 rpb = list(r.part_bounds)
                 ns = r.n_samples
+                # what the chunk intervals hold is what one read of the whole recording holds
+                whole = np.asarray(r[0:n])
+                pieces = [np.asarray(r[a:b_]) for a, b_ in it if b_ > a]
                 # a spike selector is built on the reader's chunk grid (as the model does), with a last
                 # spike after the end of the recording: the reader's grid is an input, not a scratch pad
                 from phylib.io.array import SpikeSelector
@@ -229,6 +232,11 @@ def run_sizes(case, acc, order):
         if bad:
             viol(acc, 'flat-reader', 'iter_chunks', bad, case, op, 'non-empty intervals tile [0,n)',
                  [(int(a), int(b_)) for a, b_ in it], order)
+        joined = np.concatenate(pieces) if pieces else np.zeros((0, 2), dtype=A.dtype)
+        if whole.shape != A.shape or joined.shape != A.shape or not np.array_equal(whole, A) or \
+                not np.array_equal(joined, A):
+            viol(acc, 'flat-reader', 'iter_chunks', 'chunks-do-not-add-up-to-the-whole-read', case, op,
+                 list(A.shape), {'whole': list(whole.shape), 'chunks': list(joined.shape)}, order)
         if [int(x) for x in after[0]] != [int(x) for x in cb] or after[2] != ns or \
                 [(int(a), int(b_)) for a, b_ in after[1]] != [(int(a), int(b_)) for a, b_ in it]:
             viol(acc, 'flat-reader', 'chunk_bounds', 'changed-by-a-selector-built-on-them', case, op,
